@@ -156,7 +156,7 @@ class Runner:
                 args += ["-i", concrete_pattern(w, p)]
             if op.get("PF"):
                 self.patfiles += 1
-                pf = os.path.join(w.base, "patterns-%d.txt" % self.patfiles)
+                pf = w.aux_path("patterns-%d.txt" % self.patfiles)
                 with open(pf, "w") as fh:
                     fh.write("".join(concrete_pattern(w, p) + "\n" for p in list(op["PF"]) + (list(op["PF"])[:1] if op.get("pdup") else [])))
                 args += ["-ii", pf]
@@ -243,7 +243,7 @@ class Runner:
         if not op.get("PF"):
             return []
         self.patfiles += 1
-        pf = os.path.join(w.base, "patterns-%d.txt" % self.patfiles)
+        pf = w.aux_path("patterns-%d.txt" % self.patfiles)
         with open(pf, "w") as fh:
             fh.write("".join(concrete_pattern(w, p) + "\n" for p in list(op["PF"]) + (list(op["PF"])[:1] if op.get("pdup") else [])))
         return ["-ii", pf]
@@ -345,7 +345,21 @@ class Runner:
         command, args, cwd = self.build(op)
         if op.get("v"):
             args = list(args) + ["-v"]
+        stray = None
+        if op.get("ctrlfile") and op["op"] == "create":
+            # a file whose name XML cannot represent, present only while the command runs (the manifest writer fails in the
+            # middle of the body); only where an ascmhl folder exists already (first generations: see DESIGN.md, residual of F20)
+            rootp = w.cpath(tuple(op["R"]))
+            if os.path.isdir(os.path.join(rootp, "ascmhl")):
+                st = os.stat(rootp)
+                stray = os.path.join(rootp, "zz\x01stray.mov")
+                with open(stray, "wb") as fh:
+                    fh.write(b"stray")
+                os.utime(rootp, ns=(st.st_atime_ns, st.st_mtime_ns))
         res = w.run(command, args, cwd=cwd)
+        if stray:
+            os.remove(stray)
+            os.utime(rootp, ns=(st.st_atime_ns, st.st_mtime_ns))
         post_snap = w.snapshot()
         delta = W.World.delta(pre_snap, post_snap)
         k = op["op"]
